@@ -294,6 +294,9 @@ func (e *Engine) verifyFunc(key string) (ctx *FuncCtx) {
 				continue
 			}
 			alts = append(alts, mkAnd(o.st.pc.list()...))
+			if len(alts) >= 8 {
+				break // one satisfiable path is enough; keep the query small
+			}
 		}
 		if len(alts) > 0 {
 			c.obls = append(c.obls, &Obligation{Fn: key, Name: key + ".cover.exit", Kind: "cover", Pos: e.posStr(fd.Body.Rbrace), Tags: c.props, PC: (*PC)(nil).push(mkOr(alts...)), Goal: tFalse, ctx: c, Text: "the end of the function is reachable (path conditions are satisfiable)"})
